@@ -4,6 +4,9 @@ A design is a tree of generated component classes. Every class declares ports (p
 wires, child components (single and lists, classes are reused), and drives everything feed-forward (no
 combinational loops): connections (`//=`, which merge signals into one net), constants, slices, bitstruct
 fields, `@update` and `@update_ff` blocks (registers, wrapping counters, low-entropy functions).
+With `slicenets=True` every class also gets value nets that contain no whole signal at all (bit-reversal and byte-swap
+wrappers, wires assembled from slices of other signals and constants, struct wires assembled field by field): nets the
+VCD pass drops entirely.
 
 Types are described by tuples: ('b', n) = Bits n, ('s', name) = bitstruct `name` of STRUCTS (first field most
 significant).  The generator also returns, for every class, the list of signals it declares — the
@@ -91,7 +94,8 @@ class CompSpec:
     return f'class {self.name}( Component ):\n{meth}  def construct( s ):\n{body}\n'
 
 class Gen:
-  def __init__(self, rng, uid, maxdepth, big=False, nonpure=None):
+  def __init__(self, rng, uid, maxdepth, big=False, nonpure=None, slicenets=False):
+    self.slicenets = slicenets  # add value nets that contain no whole signal (bits / slices / struct fields / constants only)
     self.nonpure = nonpure      # None / 'method' / 'update_once': makes the design "not pure RTL" for PrepareSimPass
     self.nonpure_done = False
     self.rng = rng
@@ -404,6 +408,62 @@ class Gen:
           L.append(f's.{w} //= s.{e}')
           sources.append((w, td)); e = w
 
+    # ---- value nets without a whole signal: bit reversal / byte swap wrappers, slice-to-slice, field-to-field,
+    # constant-tied slices and fields. VcdGenerationPass drops such nets entirely; where they fall in the
+    # enumeration order of get_all_value_nets() (before / after the clock net) changes from instance to instance.
+    if self.slicenets:
+      def bits_src(minw, maxw=200, widths=None):
+        cands = [(e, t) for e, t in sources if t[0] == 'b' and minw <= t[1] <= maxw and (widths is None or t[1] in widths)]
+        if cands: return rng.choice(cands)
+        td = ('b', rng.choice(widths or [w for w in WIDTHS if minw <= w <= maxw]))
+        return add_inport(td), td
+      for _ in range(rng.randint(2, 4) if depth == self.maxdepth else rng.randint(0, 2)):
+        kind = rng.choice(['bitrev', 'bitrev', 'byteswap', 'slice2slice', 'slice2slice', 'constslice', 'field2field', 'constfield'])
+        c.features.add('dropped-net:' + kind)
+        if kind == 'bitrev':
+          e, td = bits_src(2, 16)
+          n = td[1]
+          r = declare('Wire', 'rev', td)
+          L.append(f'for i in range({n}): s.{r}[i] //= s.{e}[{n - 1}-i]')
+          sources.append((r, td))
+        elif kind == 'byteswap':
+          e, td = bits_src(16, 64, [16, 32, 64])
+          n = td[1]
+          r = declare('Wire', 'bsw', td)
+          L.append(f'for i in range({n // 8}): s.{r}[8*i:8*i+8] //= s.{e}[{n}-8*i-8:{n}-8*i]')
+          sources.append((r, td))
+        elif kind in ('slice2slice', 'constslice'):
+          # a wire assembled from pieces: every piece is a slice of some signal or a constant (the wire is fully driven)
+          td = ('b', rng.choice([w for w in WIDTHS if w >= 2]))
+          x = declare('Wire', 'sl' if kind == 'slice2slice' else 'ks', td)
+          cuts = sorted(set(rng.sample(range(1, td[1]), min(td[1] - 1, rng.randint(1, 3)))))
+          pconst = 0.25 if kind == 'slice2slice' else 0.6
+          for lo, hi in zip([0] + cuts, cuts + [td[1]]):
+            k = hi - lo
+            srcs = [(e, t) for e, t in sources if t[0] == 'b' and t[1] >= k and e != x]
+            if srcs and rng.random() >= pconst:
+              e, ts = rng.choice(srcs); a = rng.randint(0, ts[1] - k)
+              L.append(f's.{x}[{lo}:{hi}] //= s.{e}[{a}:{a + k}]')
+            else:
+              L.append(f's.{x}[{lo}:{hi}] //= {rng.choice([0, (1 << k) - 1, rng.getrandbits(k)])}')
+          sources.append((x, td))
+        else:
+          # a struct wire assembled field by field from the fields of another struct signal / constants
+          ss = [(e, t) for e, t in sources if t[0] == 's']
+          if ss: e, td = rng.choice(ss)
+          else:
+            td = ('s', rng.choice(STRUCT_ORDER)); e = add_inport(td)
+          x = declare('Wire', 'fs', td)
+          for f, ft in STRUCTS[td[1]]:
+            if kind == 'constfield' and ft[0] == 'b' and rng.random() < 0.6:
+              L.append(f's.{x}.{f} //= {rng.getrandbits(ft[1])}')
+            elif ft[0] == 's' and rng.random() < 0.5:
+              # (`s.a.b.c //= ...` is not available on a field of a field: connect() is)
+              for f2, ft2 in STRUCTS[ft[1]]: L.append(f'connect( s.{x}.{f}.{f2}, s.{e}.{f}.{f2} )')
+            else:
+              L.append(f's.{x}.{f} //= s.{e}.{f}')
+          sources.append((x, td))
+
     if self.big and depth == self.maxdepth:
       # more than 94 nets: two-character VCD symbols
       k = rng.randint(95, 130); td = ('b', rng.choice([1, 2, 5])); n = fresh('many')
@@ -507,12 +567,12 @@ def _get(spec, path):
   for e in path: spec = dict(spec.children)[e]
   return spec
 
-def generate(rng, uid, maxdepth, big=False, nonpure=None, nrep=0):
+def generate(rng, uid, maxdepth, big=False, nonpure=None, nrep=0, slicenets=False):
   """returns (module source, top CompSpec after the replacements, replacements)
      replacements = [(instance path, class name, use replace_component_with_obj)] to be applied, in order,
      after elaborate(): child components (list elements preferred, several of one list) are swapped for
      classes with the same ports"""
-  g = Gen(rng, uid, maxdepth, big, nonpure)
+  g = Gen(rng, uid, maxdepth, big, nonpure, slicenets)
   top = g.gen_comp(maxdepth)
   variants, reps = [], []
   for k in range(nrep):
